@@ -247,6 +247,18 @@ def main(prop, level, body):
     tier = a.tier if a.tier in ("quick", "thorough") else "quick"
     print(f"[{prop}] VERIF_SEED={seed} tier={tier} repo={env.repo_path()}", flush=True)
     os.environ["NESSAI_SIM_ROOT"] = os.path.join(env.scratch_root(), f"nessai-sim-{os.getpid()}")
+    # scratch left behind by runs that were killed (their owner pid is gone)
+    import glob
+    import shutil as _sh
+
+    for d in glob.glob(os.path.join(env.scratch_root(), "nessai-sim-*")):
+        try:
+            pid = int(d.rsplit("-", 1)[1])
+            os.kill(pid, 0)
+        except (ValueError, ProcessLookupError):
+            _sh.rmtree(d, ignore_errors=True)
+        except PermissionError:
+            pass
     try:
         env.import_system()
         r = Runner(prop, level, tier, seed, replay=a.replay)
